@@ -34,7 +34,7 @@ MODELS = {
                  ('MC_Hier', 'MC_Hier_t3.cfg', 3000),
                  ('MC_Hier', 'MC_Hier_t4.cfg', 6000)],
 }
-NRUNS = {'quick': 40, 'thorough': 500}
+NRUNS = {'quick': 40, 'thorough': 200}
 CLAUSES = {
     'terminated-without-a-full-unsuccessful-sweep-of-the-last-pass',
     'sweep-mutators-differ-from-pass', 'TLastSweepFull',
